@@ -684,7 +684,9 @@ impl Session {
                 let mut off = 0;
                 let mut ci = 0;
                 while off < bytes.len() {
-                    let n = reply.dir.chunks[ci % reply.dir.chunks.len()].min(bytes.len() - off);
+                    // the chunk pattern applies to the first 400 writes; the remainder goes out at once
+                    // (a 1-byte pattern over a 100 kB reply would only test the harness' patience)
+                    let n = if ci >= 400 { bytes.len() - off } else { reply.dir.chunks[ci % reply.dir.chunks.len()].min(bytes.len() - off) };
                     ci += 1;
                     if sock.write_all(&bytes[off..off + n]).await.is_err() {
                         break 'outer;
